@@ -322,6 +322,23 @@ PLANS = {
         "assumptions": ["the generator draws only through rand.Rand.Intn (31-bit path), recorded by a wrapping rand.Source",
                         "TLC, Json module, harness recording and S-expression reader"],
     },
+    "C11": {
+        "mc": {"quick": [{"module": "MCReg", "cfg": "cfg/MCReg.quick.cfg"}], "thorough": [{"module": "MCReg", "cfg": "cfg/MCReg.thorough.cfg", "timeout": 3400}]},
+        "drive": {"quick": [{"args": ["reg", "-n", "6000", "-seed", "{seed}"]}],
+                  "thorough": [{"args": ["reg", "-n", "150000", "-seed", "{seed}"]}]},
+        "judge": {"module": "JudgeReg", "cfg": "JudgeReg.cfg"},
+        "replay_args": ["reg", "-n", "200", "-seed", "1"],
+        "engine": "histories",
+        "rule": "one history = (pre-populated key map with distinct keys over {-32768, -2, 0..3, 5, 100, 253..257, 32767}, "
+                "undefined-variable mode on/off, 1..6 steps of GetOrRegisterKey / RegVarAndOp incl. repeated names; then "
+                "expressions (probe v1 .. vk) over the registered variables in permuted operand positions under option subsets "
+                "incl. the fast path, evaluated through NewCtxFromVars, an explicit map fetcher and an explicit slice fetcher, "
+                "with bindings of every source type of the normalisation table); judged per step: key map injective, existing "
+                "assignments unchanged, returned key = recorded key, re-registration changes nothing; per read: every operand "
+                "value = Normalise(binding); non-trivial = a step that extends a non-empty map, or a read of two or more variables",
+        "sample": lambda o: {"km0": o["km0"], "steps": o["steps"][:3], "chosen_fetcher": o.get("chosen"), "read": (o["reads"][0] if o["reads"] else None)},
+        "assumptions": ["TLC, Json module, harness recording (key map copied after every step; operand values copied inside the probe operator)"],
+    },
 }
 
 ENGINES = [
@@ -342,4 +359,7 @@ ENGINES.append({"name": "operators", "path": "spec/Operators.tla, Int64.tla, Enc
 ENGINES.append({"name": "generator", "path": "spec/Generator.tla, MCGen.tla, JudgeGen.tla + harness/fam_gen.go",
                 "serves_properties": ["C20"],
                 "kind_free_text": "GenerateRandomExpr as a consumer of a draw script; model-checked over scripts; real runs with recorded draws replayed through the model"})
+ENGINES.append({"name": "histories", "path": "spec/Registry.tla, MCReg.tla, JudgeReg.tla, CompileHistory.tla, Concurrent.tla + harness/fam_reg.go, fam_compile.go, fam_conc.go",
+                "serves_properties": ["C11"],
+                "kind_free_text": "histories and schedules: registration histories, compile histories on shared configs, concurrent evaluations on a shared program (gated schedules + Go race detector)"})
 NOT_APPLICABLE = {}
